@@ -252,6 +252,10 @@ def r4_loop_templates(ctx, T, rule="C02.R4"):
             # is a `while`; one that has both kinds must produce both polarities
             if len(polarities) == 1 and polarities != {"while"}:
                 ok, why = False, "the only polarity emitted is `repeat while the condition is false`"
+            takes_kind = any("DoLoopConditionKind" in f.body.locals[i]["ty"] for i in range(1, f.argc + 1))
+            if takes_kind and polarities != {"while", "until"}:
+                ok, why = False, "the emitter is told whether the loop is WHILE or UNTIL but emits only the `%s` " \
+                                 "polarity: one of the two spellings runs like the other" % "/".join(sorted(polarities))
         k = sum(1 for x in ctx.obs if x.key.startswith("%s:%s" % (rule, construct)))
         ctx.decide(ok and n_paths > 0, rule, "%s:%s%s" % (rule, construct, "#%d" % k if k else ""), f.loc,
                    "body and condition on one cycle, an exit after the condition, a test on the condition (%s)"
